@@ -15,6 +15,8 @@ use emit::{Empty, Props, Str, Value};
 use serde::{Deserialize, Serialize};
 use vcore::{catch, pick, vassert, Cx, Fail, Res};
 
+pub mod program;
+
 // ---------------------------------------------------------------------------------------------
 // Model
 
